@@ -27,6 +27,24 @@ type vGot struct {
 	err   error
 	// atReader: the error came from Conn.Reader (no message could be started), not from reading a started message
 	atReader bool
+	// afterMsgs: messages delivered by further read attempts made after the first failure (an application that
+	// retries); a reference receiver delivers nothing after the first violation / Close / end of the stream
+	afterMsgs int
+}
+
+// vRetries: how often the application tries again after its first failed read.
+var vRetries = 2
+
+func vRetryReads(c *Conn, bufSize int, g *vGot) {
+	for j := 0; j < vRetries; j++ {
+		_, r, err := c.Reader(vBG)
+		if err != nil {
+			continue
+		}
+		if _, err := vReadAll(r, bufSize); err == nil {
+			g.afterMsgs++
+		}
+	}
 }
 
 // vReadLoop is the application: read messages until an error.
@@ -37,12 +55,14 @@ func vReadLoop(c *Conn, bufSize int, max int) vGot {
 		if err != nil {
 			g.err = err
 			g.atReader = true
+			vRetryReads(c, bufSize, &g)
 			return g
 		}
 		b, err := vReadAll(r, bufSize)
 		if err != nil {
 			g.tail = b
 			g.err = err
+			vRetryReads(c, bufSize, &g)
 			return g
 		}
 		g.types = append(g.types, typ)
@@ -168,6 +188,7 @@ func verifC03_struct() {
 		vReach("C03.struct.ping")
 	}
 	vAssert(g.err != nil, "C03.struct.ends-with-error")
+	vAssert(g.afterMsgs == 0, "C03.struct.nothing-delivered-after-the-failure")
 	vCheckDelivered(g, e, "C03.struct")
 	if e.closeRecv {
 		var ce CloseError
@@ -368,6 +389,7 @@ func verifC03_raw() {
 	}
 	vReach("C03.raw.compared")
 	vAssert(g.err != nil, "C03.raw.ends-with-error")
+	vAssert(g.afterMsgs == 0, "C03.raw.nothing-delivered-after-the-failure")
 	if len(e.msgs) > 0 {
 		vReach("C03.raw.message")
 	}
